@@ -273,29 +273,28 @@ type solverSpec struct {
 	args func(file string, timeoutS int) []string
 }
 
+// Solver configurations. z3 5.1.0 gave WRONG "unsat" answers on small satisfiable queries, with either arithmetic core,
+// always through arithmetic equality propagation (experiments/z3-5.1.0-unsound.smt2: wrong with the default core,
+// unknown with smt.arith.solver=2; experiments/z3-5.1.0-legacy-arith-unsound.smt2: the other way round; both unknown
+// with smt.arith.propagate_eqs=false). Both were found because a deliberately broken variant verified. So:
+//   stage 1: z3 with smt.arith.propagate_eqs=false races cvc5; "unsat" from either discharges;
+//   stage 2 (only if stage 1 decided nothing): z3 with the default core AND z3 with the legacy core, and the goal is
+//            discharged only if BOTH say "unsat" (the two wrong answers seen never coincided).
+// z3 4.8.12 is not used at all (wrong unsat on experiments/z3-4.8.12-unsound.smt2).
 var solvers = []solverSpec{
 	{"z3-new", func(f string, t int) []string {
-		args := []string{"z3-new", fmt.Sprintf("-T:%d", t)}
-		args = append(args, z3Options()...)
-		return append(args, f)
+		return []string{"z3-new", fmt.Sprintf("-T:%d", t), "smt.arith.propagate_eqs=false", f}
 	}},
 	{"cvc5", func(f string, t int) []string {
 		return []string{"cvc5", fmt.Sprintf("--tlimit=%d", t*1000), "-q", f}
 	}},
-	// z3 4.8.12 (/usr/bin/z3) is NOT used: it answers "unsat" on a small satisfiable set of the string axioms plus one
-	// extensionality instance (experiments/z3-4.8.12-unsound.smt2; z3 5.1.0 and cvc5 say unknown/sat), which let a
-	// seeded change (C05-6) verify in the second-chance pass. Found by the seed matrix.
 }
 
-// z3Options: z3 5.1.0 with its default (new) arithmetic core answered "unsat" on a satisfiable query made of a
-// recursive spec function and a few irrelevant axioms (experiments/z3-5.1.0-unsound.smt2: 40 lines; unknown with
-// smt.arith.solver=2 or smt.arith.propagate_eqs=false; found because a must-fail mutant of parseMultiarch verified).
-// z3 is therefore run with the legacy simplex core. GOVC_Z3OPTS overrides (development only).
-func z3Options() []string {
-	if v, ok := os.LookupEnv("GOVC_Z3OPTS"); ok {
-		return strings.Fields(v)
-	}
-	return []string{"smt.arith.solver=2"}
+var z3Confirm = []solverSpec{
+	{"z3-new/default-core", func(f string, t int) []string { return []string{"z3-new", fmt.Sprintf("-T:%d", t), f} }},
+	{"z3-new/legacy-core", func(f string, t int) []string {
+		return []string{"z3-new", fmt.Sprintf("-T:%d", t), "smt.arith.solver=2", f}
+	}},
 }
 
 type solveResult struct {
@@ -364,6 +363,34 @@ func solveOne(dir string, idx int, query string, timeoutS int, nsolvers int) sol
 			return r
 		}
 		last = r
+	}
+	// stage 2: both remaining z3 configurations have to agree on "unsat"
+	if nerr < n {
+		ch2 := make(chan solveResult, len(z3Confirm))
+		for _, sp := range z3Confirm {
+			go func(sp solverSpec) { ch2 <- runSolver(ctx, sp, file, timeoutS) }(sp)
+		}
+		nunsat := 0
+		var t2 float64
+		for range z3Confirm {
+			r := <-ch2
+			if r.time > t2 {
+				t2 = r.time
+			}
+			outs = append(outs, fmt.Sprintf("[%s %.2fs] %s", r.solver, r.time, firstLines(r.out, 3)))
+			switch r.status {
+			case "unsat":
+				nunsat++
+			case "sat":
+				r.time += total
+				cancel()
+				return r
+			}
+		}
+		if nunsat == len(z3Confirm) {
+			return solveResult{status: "unsat", solver: "z3-new(both cores)", time: total + t2}
+		}
+		total += t2
 	}
 	last.status = "unknown"
 	if nerr == n {
